@@ -15,7 +15,10 @@ PLAN = {
         part("api", "TestC01API", (400, 4000), (8, 16)),
         part("cli", "TestC01CLI", (25, 300), (8, 16)),
     ],
+    "C02": [part("cli", "TestC02", (40, 2000), (16, 16), steps=30)],
     "C04": [part("cli", "TestC04", (60, 2500), (16, 16), steps=25)],
+    "C07": [part("cli", "TestC07", (40, 2000), (16, 16), steps=25)],
+    "C13": [part("cli", "TestC13", (40, 2000), (16, 16), steps=25)],
 }
 
 LEVEL = {"C15": "fault_enumeration", "C16": "fault_enumeration"}
